@@ -82,11 +82,16 @@ func flatten(root *Node, m map[string]any, tag string, out url.Values) (bool, st
 			continue // a flat source cannot say "null": render as missing
 		}
 		n := f.N
+		behindPtr := false
 		for n.Kind == KPtr {
 			n = n.Elem
+			behindPtr = true
 		}
 		switch n.Kind {
 		case KStruct:
+			if behindPtr {
+				return false, "a present optional record (Ptr(Struct)) is not expressible in a flat source: nothing marks the record itself as present"
+			}
 			sub, ok := v.(map[string]any)
 			if !ok {
 				return false, "a nested record given as a scalar has no meaning in a flat source"
@@ -299,6 +304,10 @@ func recordSkel(fe FrontEnd, tags map[string]int, deep bool) *Skel {
 		inner = ss("s2", sp(KStr), "b2", sp(KBool))
 	}
 	s := ss("s", sp(KStr), "i", sp(KInt), "l", sl(sp(KStr)), "n", inner)
+	if tags[shapeKey] == 1 {
+		// record variant with optional parts behind pointers: a record, a leaf, and a direct record next to them
+		s = ss("s", sp(KStr), "p", sr(ss("s4", sp(KStr), "i4", sp(KInt))), "q", sr(sp(KInt)), "n", ss("s2", sp(KStr)))
+	}
 	var apply func(s *Skel)
 	apply = func(s *Skel) {
 		for i := range s.Fields {
@@ -317,6 +326,11 @@ func recordSkel(fe FrontEnd, tags map[string]int, deep bool) *Skel {
 	s.label("")
 	return s
 }
+
+// shapeKey in a tag assignment selects the record variant (it names no field).
+const shapeKey = "§shape"
+
+func recordFieldsPtr() []string { return []string{"s", "p", "s4", "i4", "q", "n", "s2"} }
 
 func recordFields(deep bool) []string {
 	if deep {
